@@ -93,6 +93,10 @@ class ExprMixin:
         if k == 'global':
             m, nm = tgt[1], tgt[2]
             if m.name == '__init__':
+                val = m.globals[nm]
+                if isinstance(val, ast.Call) and dotted(val.func) == 'ptype' and val.args \
+                        and isinstance(val.args[0], ast.Constant):
+                    return Const(('ptype', val.args[0].value))
                 return nf.sym(f'lentil.{nm}')
             val = m.globals[nm]
             if isinstance(val, ast.Constant) and isinstance(val.value, (int, float)):
@@ -327,7 +331,7 @@ class ExprMixin:
         if cls is not None:
             f = cls.find_method(name)
             if f is not None and f.is_property:
-                self.log_call(st, f, {'self': base}, node, kind='property')
+                self.log_call(st, f, {'self': base}, node, via='property')
                 if self.should_inline(f, auto_simple=True):
                     return self.inline(f, {'self': base}, st, node)
                 return at
